@@ -38,6 +38,8 @@ def cases(tier, seed):
         for m in splits:
             out.append(dict(name=f"split-{nm}-m{m}", kind="split", shape=shape, pml=pml, T=T, m=m))
         out.append(dict(name=f"reset-{nm}", kind="reset", shape=shape, pml=pml, T=T))
+        # the same split with the step bounds given as jax arrays (the signature allows int | jax.Array)
+        out.append(dict(name=f"split-{nm}-m{max(1, T // 2)}-arraytimes", kind="split", shape=shape, pml=pml, T=T, m=max(1, T // 2), array_times=True))
     if tier != "quick":
         out.append(dict(name="split3-pml", kind="split3", shape=(3, 3, 6), pml=True, T=T, m=2, m2=5))
     return out
@@ -101,14 +103,23 @@ def run_case(c, case):
     if case["kind"] in ("split", "split3"):
         cuts = [0, case["m"]] + ([case["m2"]] if case["kind"] == "split3" else []) + [T]
 
+        tm = (lambda v: jnp.asarray(v, dtype=jnp.int32)) if case.get("array_times") else (lambda v: v)
+
         def whole(E, H, pe, ph, d):
+            # reference: the plain step loop (the property's "steps executed"), independent of custom_fdtd_forward's loop bound
+            if case.get("array_times"):
+                st = (jnp.asarray(0, dtype=jnp.int32), pack(E, H, pe, ph, d))
+                from fdtdx.fdtd.forward import forward
+                for _ in range(T):
+                    st = forward(st, cfg, oc, key, True, False, True)
+                return out_of(st)
             return out_of(custom_fdtd_forward(pack(E, H, pe, ph, d), oc, cfg, key, False, True, 0, T, show_progress=False))
 
         def chain(E, H, pe, ph, d):
             a = pack(E, H, pe, ph, d)
             st = None
             for lo, hi in zip(cuts, cuts[1:]):
-                st = custom_fdtd_forward(a, oc, cfg, key, False, True, lo, hi, show_progress=False)
+                st = custom_fdtd_forward(a, oc, cfg, key, False, True, tm(lo), tm(hi), show_progress=False)
                 a = st[1]
             return out_of(st)
 
